@@ -28,6 +28,17 @@ def enteredOrd : List Out → Prop
   | .entered r _ :: rest => (∀ r' e, Out.entered r' e ∈ rest → r' < r) ∧ enteredOrd rest
   | _ :: rest => enteredOrd rest
 
+/-- Every timeout carries a QC at least as high as the QC of any block voted for before and as
+any QC sent before (in own proposals, earlier timeouts, helper replies). -/
+def toutsOrd : List Out → Prop
+  | [] => True
+  | .timeout t :: rest =>
+    (∀ b, Out.voted b ∈ rest → b.qc.round ≤ t.highQC.round) ∧
+    (∀ b, Out.propose b ∈ rest → b.qc.round ≤ t.highQC.round) ∧
+    (∀ t', Out.timeout t' ∈ rest → t'.highQC.round ≤ t.highQC.round) ∧
+    (∀ to b, Out.helperReply to b ∈ rest → b.qc.round ≤ t.highQC.round) ∧ toutsOrd rest
+  | _ :: rest => toutsOrd rest
+
 def makeRound : PMsg → Option Nat
   | .make r _ _ => some r
   | .cleanup _ => none
@@ -40,6 +51,7 @@ structure Inv2 (s : Node) : Prop where
   makes : makesOrd s.hist
   props : propsOrd s.hist
   entered : enteredOrd s.hist
+  touts : toutsOrd s.hist
   enteredLe : ∀ r e, Out.entered r e ∈ s.hist → r ≤ s.round
   qSorted : s.propQ.Pairwise MakeLt
   qGt : ∀ b, Out.propose b ∈ s.hist → ∀ r q t, PMsg.make r q t ∈ s.propQ → b.round < r
@@ -60,14 +72,15 @@ def Out.plain : Out → Bool
 
 theorem ords_plain (o : Out) (h : List Out) (ho : o.plain = true) :
     (votesOrd (o :: h) ↔ votesOrd h) ∧ (makesOrd (o :: h) ↔ makesOrd h) ∧
-    (propsOrd (o :: h) ↔ propsOrd h) ∧ (enteredOrd (o :: h) ↔ enteredOrd h) := by
-  cases o <;> simp [Out.plain] at ho <;> simp [votesOrd, makesOrd, propsOrd, enteredOrd]
+    (propsOrd (o :: h) ↔ propsOrd h) ∧ (enteredOrd (o :: h) ↔ enteredOrd h) ∧
+    (toutsOrd (o :: h) ↔ toutsOrd h) := by
+  cases o <;> simp [Out.plain] at ho <;> simp [votesOrd, makesOrd, propsOrd, enteredOrd, toutsOrd]
 
 theorem inv2_emit_plain (s : Node) (o : Out) (ho : o.plain = true) (h : Inv2 s) :
     Inv2 (s.emit o) := by
   have := ords_plain o s.hist ho
   cases o <;> simp [Out.plain] at ho <;>
-    (constructor <;> simp [votesOrd, makesOrd, propsOrd, enteredOrd] <;> grind [Inv2])
+    (constructor <;> simp [votesOrd, makesOrd, propsOrd, enteredOrd, toutsOrd] <;> grind [Inv2])
 
 theorem inv2_fail (s : Node) (p : PanicSite) (h : Inv2 s) : Inv2 (s.fail p) := by
   unfold fail; constructor <;> simp <;> grind [Inv2]
@@ -80,7 +93,7 @@ theorem inv2_advanceRound (s : Node) (r : Nat) (ev : Evidence) (h : Inv2 s) :
   unfold advanceRound
   split
   · exact h
-  · constructor <;> simp [votesOrd, makesOrd, propsOrd, enteredOrd] <;> grind [Inv2]
+  · constructor <;> simp [votesOrd, makesOrd, propsOrd, enteredOrd, toutsOrd] <;> grind [Inv2]
 
 theorem inv2_updateHighQC (s : Node) (qc : QC) (h : Inv2 s) : Inv2 (s.updateHighQC qc) := by
   unfold updateHighQC
@@ -102,6 +115,7 @@ theorem inv2_generateProposal (s : Node) (tc : Option TC) (h1 : Inv1 s) (h : Inv
   · simp only [emit_hist, makesOrd]; exact ⟨fun r' q t hm => hc r' q t hm, h.makes⟩
   · simpa [propsOrd] using h.props
   · simpa [enteredOrd] using h.entered
+  · simpa [toutsOrd] using h.touts
   · intro r e hm; simp at hm; exact h.enteredLe r e hm
   · simp only [emit_propQ]
     rw [List.pairwise_append]
@@ -266,7 +280,11 @@ theorem inv2_localTimeout (c : Committee) (s : Node) (h1 : Inv1 s) (h : Inv2 s) 
   unfold localTimeout
   apply inv2_handleTimeout
   · constructor <;> simp [Node.pendingBlocks] <;> grind [Inv1, Node.pendingBlocks]
-  · constructor <;> simp [votesOrd, makesOrd, propsOrd, enteredOrd] <;> grind [Inv2]
+  · have a1 := h1.voted
+    have a2 := h1.proposed
+    have a3 := h1.touts
+    have a4 := h1.replied
+    constructor <;> simp [votesOrd, makesOrd, propsOrd, enteredOrd, toutsOrd] <;> grind [Inv2]
 
 theorem inv2_foldl_commit (l : List Block) (s : Node) (h : Inv2 s) :
     Inv2 (l.foldl (fun s x => s.emit (.commit x)) s) := by
@@ -293,7 +311,7 @@ theorem inv2_makeVote (s : Node) (b : Block) (h1 : Inv1 s) (h : Inv2 s) : Inv2 (
       simp only [Bool.and_eq_true, decide_eq_true_eq] at hcond
       have hv := h1.voted
       have ht := h1.touts
-      constructor <;> simp [votesOrd, makesOrd, propsOrd, enteredOrd] <;> grind [Inv2]
+      constructor <;> simp [votesOrd, makesOrd, propsOrd, enteredOrd, toutsOrd] <;> grind [Inv2]
     · exact h
 
 theorem inv2_mempoolCleanup (s : Node) (r : Nat) (h : Inv2 s) : Inv2 (s.mempoolCleanup r) := by
@@ -485,6 +503,7 @@ theorem inv2_proposerStep (s : Node) (order : List Nat) (h1 : Inv1 s) (h : Inv2 
         intro b' hb'
         exact h.qGt b' hb' r qc tc hhead
       · simpa [enteredOrd] using h.entered
+      · simpa [toutsOrd] using h.touts
       · intro r' e hm; simp at hm; exact h.enteredLe r' e hm
       · simpa using hs'.2
       · intro b hb r' q t hm
@@ -556,7 +575,7 @@ theorem inv2_step (c : Committee) (s : Node) (e : Event) (h1 : Inv1 s) (h : Inv2
 theorem inv2_init (c : Committee) (name : Nat) : Inv2 (Node.init c name) := by
   unfold Node.init
   simp only []
-  split <;> (constructor <;> simp [votesOrd, makesOrd, propsOrd, enteredOrd, MakeLt])
+  split <;> (constructor <;> simp [votesOrd, makesOrd, propsOrd, enteredOrd, toutsOrd, MakeLt])
 
 theorem inv12_run (c : Committee) (s : Node) (es : List Event) (h1 : Inv1 s) (h : Inv2 s) :
     Inv1 (run c s es) ∧ Inv2 (run c s es) := by
